@@ -239,21 +239,28 @@ def header_matches(item: Item, want: str) -> bool:
 
 
 def find_item(src: str, path):
-    """path: list of header strings. Returns Item."""
+    """path: list of header strings. Returns Item.  When several items match a
+    non-final header (e.g. two `impl X` blocks) the one in which the rest of the
+    path resolves is taken; the overall match must be unique."""
     msk = mask(src)
-    lo, hi = 0, len(src)
-    item = None
-    for depth, want in enumerate(path):
+
+    def rec(lo, hi, path):
+        want = path[0]
         found = [it for it in items_in(src, msk, lo, hi) if header_matches(it, want)]
         if not found and want.startswith('fn '):
-            # nested fn inside a fn body may sit after statements: scan deeper
             found = [it for it in _scan_all(src, msk, lo, hi) if header_matches(it, want)]
-        if len(found) != 1:
-            raise LostAnchor(f'item {" / ".join(path)}: {len(found)} matches for {want!r}')
-        item = found[0]
-        if item.body_open >= 0:
-            lo, hi = item.body_open + 1, item.end - 1
-    return item
+        if len(path) == 1:
+            return found
+        res = []
+        for it in found:
+            if it.body_open >= 0:
+                res.extend(rec(it.body_open + 1, it.end - 1, path[1:]))
+        return res
+
+    found = rec(0, len(src), list(path))
+    if len(found) != 1:
+        raise LostAnchor(f'item {" / ".join(path)}: {len(found)} matches')
+    return found[0]
 
 
 def _scan_all(src, msk, lo, hi):
